@@ -213,6 +213,12 @@ func GenWorld(seed int64, prop string, idx int, steps int) WorldCfg {
 		if nc.MaxSizePerMsg != math.MaxUint64 {
 			nc.MaxInflightBytes = []uint64{0, 0, max(nc.MaxSizePerMsg, 40), 512}[r.Intn(4)]
 		}
+		// one node in eight starts with a byte budget below the message size limit: the
+		// documented outcome is that the configuration is refused (see startNode); the
+		// decision does not consume from r, so all other draws stay as they were
+		if nc.MaxSizePerMsg >= 64 && (h>>9+id*7)%8 == 0 {
+			nc.MaxInflightBytes = 48
+		}
 		if cfg.Prof.Name == "flow" {
 			nc.MaxInflight = []int{1, 2, 4}[r.Intn(3)]
 			if nc.MaxSizePerMsg == math.MaxUint64 {
